@@ -7,6 +7,10 @@ NAME=$ID-$N
 WT=/var/tmp/slipwork/seedrun-$NAME
 OUT=/verif/seeded/$NAME
 export GOFLAGS=-mod=mod GOPROXY=off
+if [ ! -f $SRC/patch.diff ] && [ -f /verif/seeded/$ID-$N/patch.diff ]; then
+  # the author's worktree is gone: re-test the copy kept under /verif/seeded
+  SRC=/var/tmp/slipwork/seedsrc-$ID-$N; rm -rf $SRC; mkdir -p $SRC; cp -r /verif/seeded/$ID-$N/. $SRC/
+fi
 [ -f $SRC/patch.diff ] || { echo "no patch.diff in $SRC"; exit 2; }
 git -C /repo worktree remove --force $WT 2>/dev/null
 git -C /repo worktree add -q --detach $WT HEAD || exit 2
